@@ -7,8 +7,14 @@ PRIMS = (
     "parse::Parser::<R>::eat_char", "parse::Parser::<R>::next_char", "parse::Parser::<R>::next_char_or_null",
     "parse::read::next_or_eof", "parse::read::next_or_eof_char",
 )
-FINITE_ITER_SELF = ("std::slice::Iter<", "std::ops::Range<", "std::iter::Enumerate<std::slice::Iter<",
-                    "std::ops::RangeInclusive<", "std::slice::IterMut<", "std::iter::Zip<std::slice::Iter<")
+_SLICE_ITERS = ("std::slice::Iter<", "std::slice::IterMut<", "std::slice::Chunks<", "std::slice::ChunksExact<",
+                "std::slice::RChunks<", "std::slice::Windows<", "std::str::Bytes<", "std::str::Chars<",
+                "std::str::CharIndices<", "std::vec::IntoIter<", "std::array::IntoIter<")
+# iterators over a finite in-memory sequence, bare or under an adaptor that only relabels / pairs their items
+FINITE_ITER_SELF = _SLICE_ITERS + ("std::ops::Range<", "std::ops::RangeInclusive<") + tuple(
+    "%s<%s" % (ad, it) for ad in ("std::iter::Enumerate", "std::iter::Zip", "std::iter::Rev", "std::iter::Copied",
+                                  "std::iter::Cloned", "std::iter::Skip", "std::iter::Take", "std::iter::Peekable")
+    for it in _SLICE_ITERS + ("std::ops::Range<",))
 
 IMPLS = {
     "io": {
@@ -98,8 +104,75 @@ def ok_consuming(rule, crate, fn_path, mode, label):
                     "return consumed input" % (fn_path, variant, npaths), fn)
 
 
-def progress_blocks(fn, consuming):
+def counter_steps(fn):
+    """Blocks in which a local counter that some loop test bounds from above is stepped: `c = c + k` (k a positive
+    constant, directly or through the checked-add tuple) where `c` is also compared with `<` / `<=` / `!=` against a
+    constant or a value defined once.  A cycle through such a block runs at most bound / k times."""
+    from . import common
+    defs = common.defs_of(fn)
     out = set()
+    # candidates: assignments c = Add(c, k) | c = move (tmp.0) with tmp = AddWithOverflow(c, k)
+    steps = {}
+    for bi, b in enumerate(fn.blocks):
+        if b.get("cleanup"):
+            continue
+        for st in b["stmts"]:
+            if st["k"] != "assign" or st["place"]["p"]:
+                continue
+            c = st["place"]["l"]
+            rv = st["rv"]
+            src = None
+            if rv["k"] == "bin" and rv["op"] in ("Add", "AddUnchecked"):
+                src = rv
+            elif rv["k"] == "use" and rv["op"].get("c") in ("copy", "move") and len(rv["op"]["pl"]["p"]) == 1 \
+                    and isinstance(rv["op"]["pl"]["p"][0], dict) and rv["op"]["pl"]["p"][0].get("f") == 0:
+                ds = defs.get(rv["op"]["pl"]["l"], [])
+                if len(ds) == 1 and ds[0][1] != "term" and ds[0][2]["k"] == "bin" and ds[0][2]["op"] == "AddWithOverflow":
+                    src = ds[0][2]
+            if src is None:
+                continue
+            a, k = src["a"], common.const_int(src["b"])
+            if k is None or k <= 0 or a.get("c") not in ("copy", "move") or a["pl"]["p"] or a["pl"]["l"] != c:
+                continue
+            steps.setdefault(c, set()).add(bi)
+    if not steps:
+        return out
+    # bounded from above by a loop test
+    bounded = set()
+    for b in fn.blocks:
+        if b.get("cleanup"):
+            continue
+        for st in b["stmts"]:
+            if st["k"] == "assign" and st["rv"]["k"] == "bin" and st["rv"]["op"] in ("Lt", "Le", "Gt", "Ge", "Ne"):
+                x, y = st["rv"]["a"], st["rv"]["b"]
+                def root(op):
+                    # through single-definition copies (`_6 = copy _2; Lt(move _6, ..)`)
+                    for _ in range(4):
+                        if op.get("c") not in ("copy", "move") or op["pl"]["p"]:
+                            return op
+                        if op["pl"]["l"] in steps:
+                            return op
+                        ds = defs.get(op["pl"]["l"], [])
+                        if len(ds) == 1 and ds[0][1] != "term" and ds[0][2]["k"] == "use":
+                            op = ds[0][2]["op"]
+                        else:
+                            return op
+                    return op
+                x, y = root(x), root(y)
+                for me, other in ((x, y), (y, x)):
+                    if me.get("c") in ("copy", "move") and not me["pl"]["p"] and me["pl"]["l"] in steps:
+                        ok = common.const_int(other) is not None
+                        if not ok and other.get("c") in ("copy", "move") and not other["pl"]["p"]:
+                            ok = len(defs.get(other["pl"]["l"], [])) <= 1 and other["pl"]["l"] not in steps
+                        if ok:
+                            bounded.add(me["pl"]["l"])
+    for c in bounded:
+        out |= steps[c]
+    return out
+
+
+def progress_blocks(fn, consuming):
+    out = set(counter_steps(fn))
     for bi, b in enumerate(fn.blocks):
         if b.get("cleanup"):
             continue
@@ -333,6 +406,39 @@ def feasible_path(fn, start, goal, cap=20000, avoid=()):
     return dfs(start, {start}, {})
 
 
+def iteration_consumes(crate, fn, head, ok_consuming_fns):
+    """Fallback for a loop whose cycles are not all marked structurally: one iteration, from the loop header back to
+    it, is evaluated for every first byte (and end of input) with the sticky-peek reader model, all locals unknown.
+    Calls of functions proven to consume on success are explored twice: as a failure (the error continuation), and as
+    the end of the path (a success is progress).  Returns None if every way back to the header has consumed input,
+    else a description of a witness."""
+    inl = lex.helper_inline(crate)
+    for variant in ("io",):
+        for d in list(range(256)) + [None]:
+            for ok_is_progress in (True, False):
+                base = sticky_reader_hook(d, crate, variant, True)
+
+                def hook(S, f, bb, t, args, path, base=base, ok_is_progress=ok_is_progress):
+                    names = F.callee_names(t)
+                    if any(n in names for n in ok_consuming_fns):
+                        if ok_is_progress:
+                            return ("stop", "consumed")
+                        return ("value", Adt("std::result::Result", 1, [sim.UNK]))
+                    return base(S, f, bb, t, args, path)
+
+                for tyenv in lex.type_instances(crate, fn):
+                    S = sim.Sim([crate], hooks={"call": hook}, inline=inl, max_depth=6, max_paths=6000, max_visits=1)
+                    S._tyenv = [dict(tyenv)]
+                    try:
+                        paths = S.run(fn, start=head)
+                    except sim.Limit:
+                        return "path limit for first byte %s" % lex.fmt_bytes([d])
+                    for p in paths:
+                        if p.end == "loop" and getattr(p, "loop_header", (None, None))[1] == head and not lex.consumed(p):
+                            return "with next byte %s an iteration returns to the loop head without consuming" % lex.fmt_bytes([d])
+    return None
+
+
 def loops_check(rule, crate, fn_pred, consuming, exceptions):
     n = 0
     helpers = must_consume_fns(crate, fn_pred, consuming)
@@ -358,6 +464,12 @@ def loops_check(rule, crate, fn_pred, consuming, exceptions):
                 cyc = feasible_cycle(fn, rest, head)
             line = fn.blocks[head]["term"].get("line")
             key = "%s | loop" % fn.path
+            if cyc is not None and not (key in exceptions and exceptions[key]["count"] > 0):
+                why = iteration_consumes(crate, fn, head, [c for c in consuming if c not in PRIMS])
+                if why is None:
+                    rule.ok("%s: loop at line %s: every iteration consumes input (evaluated for all 257 next-byte cases)"
+                            % (fn.path, line), fn, line)
+                    continue
             if cyc is None:
                 rule.ok("%s: loop at line %s: every cycle passes a consuming call / index advance / finite "
                         "iterator step" % (fn.path, line), fn, line)
